@@ -345,6 +345,11 @@ class Check:
                       open(os.path.join(VERIF, rp), "w"), indent=1)
             verdict_lines.append("VIOLATION property=%s replay=%s no-failing-input-found" % (pid, rp))
             rc = 1
+        if rc == 0:
+            for tier in (self.tier,):
+                stale = os.path.join(VERIF, "replays", "%s-%s-%d.json" % (pid, tier, self.seed))
+                if os.path.exists(stale):
+                    os.unlink(stale)
         cov = {
             "obligations": (self.proof or {}).get("obligations", 0),
             "discharged": (self.proof or {}).get("discharged", 0),
